@@ -64,7 +64,7 @@ const c16Multi2 = "\"pb1\\p\"\n\t\"pb2\""
 
 const c16Raw = "`rawl0\nrawl1\n\nrawl3\n`"
 const c16Multi3 = "\"Bonjour\nété\nça va\""
-const c16Raw2 = "`rawm0\nrawm1\rrawm1b\nrawm2 é\r\nrawm3\n`"
+const c16Raw2 = "`rawm0\nrawm1\rrawm1b\nrawm2 é\r\nrawm3\nrawm4 1, \\\nrawm4b 2, \\\nrawm4c 3\nrawm5\n`" // (also lines that end in a backslash: raw text is verbatim)
 
 type c16Tok struct {
 	text string
